@@ -22,7 +22,7 @@ ASSUMPTIONS = [
 ]
 
 
-def build_case(ck, rng, gs, schema, wschema, max_depth, p_bad):
+def build_case(ck, rng, gs, schema, wschema, max_depth, p_bad, all_nonnull=False, keep_rejected=False):
     """One generated request on the schema, or None (rejected / out of fragment), counted."""
     from graphql import parse, validate
     from graphql.execution.values import get_variable_values
@@ -39,11 +39,12 @@ def build_case(ck, rng, gs, schema, wschema, max_depth, p_bad):
     errs = validate(schema, doc)
     if errs:
         ck.count("rejected_by_validate")
-        return None
+        if not keep_rejected:
+            return None
     variables = dg.variables()
     op = next(d for d in doc.definitions if isinstance(d, A.OperationDefinitionNode))
     root = "Mutation" if op.operation.value == "mutation" else "Query"
-    dgen = G.DataGen(rng, gs, dg.used_fields, p_bad=p_bad)
+    dgen = G.DataGen(rng, gs, dg.used_fields, p_bad=p_bad, all_nonnull=all_nonnull)
     data = dgen.obj(root, max_depth + 1)
     data.pop("__typename", None)
     # classification: null/absent variable in a directive condition
@@ -69,7 +70,7 @@ def build_case(ck, rng, gs, schema, wschema, max_depth, p_bad):
         ck.count("skipped:" + str(e))
         return None
     return {"text": text, "doc": doc, "variables": variables, "data": data, "wire": wire,
-            "features": sorted(dg.features), "injected": dgen.injected}
+            "features": sorted(dg.features), "injected": dgen.injected, "valid": not errs, "dg": dg}
 
 
 def compare(impl, model):
@@ -91,7 +92,7 @@ def compare(impl, model):
 
 
 def strip(r):
-    return {k: v for k, v in r.items() if k not in ("messages", "raw")}
+    return {k: v for k, v in r.items() if k not in ("messages", "raw", "fields")}
 
 
 def replay_dict(sdl, case, impl, model, what):
